@@ -123,6 +123,8 @@ func ruleNumLiteral(w *World, r *Report) {
 	isNum := map[*ssa.Function]bool{}
 	for _, fn := range numFns {
 		isNum[fn] = true
+	}
+	for _, fn := range numFns {
 		r.FuncsAnalysed[fnName(fn)] = true
 		for _, b := range fn.Blocks {
 			ret, ok := normalReturn(b)
@@ -150,6 +152,9 @@ func ruleNumLiteral(w *World, r *Report) {
 			walk(v)
 			bad := ""
 			for _, l := range leaves {
+				if c, ok := strip(l).(*ssa.Call); ok && isNum[c.Call.StaticCallee()] && c.Call.StaticCallee() != fn {
+					continue // the result of another scanner method of the same kind, judged by the same rule
+				}
 				pc := parseFloatCall(l)
 				if pc == nil {
 					bad = fmt.Sprintf("returns %s, which is not the result of strconv.ParseFloat", describeVal(l))
